@@ -86,6 +86,8 @@ def _job(args):
     A = set(ans)
     R = set(frozenset(m) for m in ref)
     res['n_models'] = len(A)
+    if all(not x['k'] == 'aggRequiredBetween' for x in ast):
+        res['probes'] = c01.make_probes(A, R)
     if A != R:
         only_a = sorted(A - R, key=lambda m: sorted(map(repr, m)))[:2]
         only_r = sorted(R - A, key=lambda m: sorted(map(repr, m)))[:2]
@@ -271,6 +273,7 @@ def main(tier):
                           f'answer sets differ from the direct reading ({r["diff"]["answer_sets"]} vs {r["diff"]["reference_models"]}); '
                           f'sentence: {bad.text}', {'cnl': text, 'program': r['program'], 'sentence': bad.text, **r['diff']})
     run.coverage['focused_searches'] = len(jobs)
+    c01.lean_reading_check(run, [(sp.ast(), r.get('probes'), sp.text()) for sp, r in zip(specs, results) if 'probes' in r])
     run.coverage['specifications'] = stats
     run.coverage['aggregate_forms'] = kinds
     for sp in specs[:3]:
